@@ -100,7 +100,7 @@ def main():
             'property_id': i, 'quick_cmd': f'./check {i} --tier quick', 'thorough_cmd': f'./check {i} --tier thorough',
             'evidence_file': f'/verif/evidence/{i}.json', 'replay_cmd_template': f'./check {i} --replay {{path}}',
             'engine': 'lean-proof+correspondence',
-            'level_claimed': {'category': 'proof', 'text': c['text'], 'design_ref': f'DESIGN.md section 6 {i}'},
+            'level_claimed': {'category': 'proof', 'text': c['text'], 'design_ref': f'DESIGN.md section 10 {i}'},
             'level_note': c['note'], 'technique': c['technique']})
     m = {'version': 1, 'setup_cmd': './setup.sh',
          'hooks': {'guard': 'cargo feature ohkami_verif (crate ohkami)',
